@@ -5,6 +5,7 @@ package main
 import (
 	"fmt"
 	"go/types"
+	"regexp"
 	"sort"
 	"strings"
 )
@@ -56,6 +57,8 @@ func (c *Ctx) entryClosureAxioms(text string) []string {
 		kind := c.ptrComps[n]
 		if kind == "field" {
 			out = append(out, fmt.Sprintf("(assert (forall ((x Int)) (! (<= (select %s x) %s) :pattern ((select %s x)))))", en, top, en))
+		} else if kind == "mapkey" {
+			out = append(out, fmt.Sprintf("(assert (forall ((m Int) (k Int)) (! (=> (select (select %s m) k) (<= k %s)) :pattern ((select (select %s m) k)))))", en, top, en))
 		} else {
 			ks := strings.TrimPrefix(kind, "map:")
 			out = append(out, fmt.Sprintf("(assert (forall ((m Int) (k %s)) (! (<= (select (select %s m) k) %s) :pattern ((select (select %s m) k)))))", ks, en, top, en))
@@ -178,8 +181,15 @@ func isInt(t types.Type) (int, bool, bool) {
 	return 0, false, false
 }
 
+var byteRe = regexp.MustCompile(`\bbyte\b`)
+var runeRe = regexp.MustCompile(`\brune\b`)
+
 func typeKey(t types.Type) string {
-	return types.TypeString(t, func(p *types.Package) string { return p.Name() })
+	s := types.TypeString(t, func(p *types.Package) string { return p.Name() })
+	// byte/uint8 and rune/int32 are identical types
+	s = byteRe.ReplaceAllString(s, "uint8")
+	s = runeRe.ReplaceAllString(s, "int32")
+	return s
 }
 
 func sanitize(s string) string {
